@@ -413,7 +413,11 @@ def p_lock_kept(sw, f):
     if code != 0:
         return None
     inner = rv.payloads[0][0]
-    lf = inner.fields[3] if hasattr(inner, "fields") and len(inner.fields) >= 5 else None
+    try:
+        from structs import fidx
+        lf = inner.fields[fidx(sw.ex, "CasInner", "_lockfile")] if hasattr(inner, "fields") else None
+    except Exception:
+        lf = None
     files = f.meta.get("files", {})
     from exec import VOpaque as _VO
     if not (isinstance(lf, _VO) and lf.tag == "file" and files.get(lf.data, {}).get("path") == ("lock",)):
@@ -450,8 +454,9 @@ def make_p_settings_gate(ex):
             if ex.feasible(f.pc, mism):
                 return ("mismatch-accepted", "open succeeds although the stored version / segment size differs", dict(pred="settings_gate"))
             inner = rv.payloads[0][0]
-            cm = inner.fields[2].fields[0]
-            flag = cm.fields[1].t
+            from structs import fget
+            cm = fget(ex, inner, "CasInner", "cas_manager").fields[0]
+            flag = fget(ex, cm, "CasManager", "dir_tree_is_pre_created").t
             if ex.feasible(f.pc, flag != pre_st):
                 return ("precreate-not-remembered", "the store uses the requested pre-creation choice instead of the stored one",
                         dict(pred="settings_gate"))
@@ -657,7 +662,8 @@ def make_p_snapshot_content(ex):
                 highest = sw.next if wrote_rec else sw.next - 1
                 if vt is None or ex.feasible(f.pc, z3.Or(lpv.disc != 1, vt != highest)):
                     return ("snapshot-version", "the snapshot is not labelled with the highest written version", dict(pred="snapshot_content"))
-                cur = f.load(sw.state_ref).fields[0]
+                from structs import fget
+                cur = fget(ex, f.load(sw.state_ref), "IndexState", "key_to_hash")
                 diff = z3.Or([z3.Or(z3.Select(m.present, u) != z3.Select(cur.present, u),
                                     z3.And(z3.Select(m.present, u), z3.Select(m.cols["blob_hash"], u) != z3.Select(cur.cols["blob_hash"], u)))
                               for u in w.keys])
